@@ -101,7 +101,7 @@ def check(c, item):
                     continue
                 if want != 0:
                     nontrivial = True
-                if abs(got - want) > 1e-10 * (1 + abs(want)):
+                if abs(got - want) > 1e-10 * max(abs(want), abs(got)):      # relative: rates of magnitude 1e-13 are rates too
                     form = ''
                     if kind in ('hillnegative', 'proportionalhillnegative', 'hillpositive', 'proportionalhillpositive'):
                         # the written Hill laws have the shape k [d] [s^n] / (s^n + K): K where K^n belongs
@@ -152,6 +152,7 @@ def specs(tier):
     s2 = spec('massaction/after-failed-create', FAM.SP, x0, [ma(['A', 'B'], ['C'], 'kf'), ma(['C'], ['A', 'A'], 0.6), ma(['A', 'A'], ['B'], 0.3)], FAM.PARAMS)
     s2['after_failed_create'] = True
     out.append(s2)
+    out += FAM.magnitude_specs()
     out += FAM.big_specs(tier, delays_ok=False, rules_ok=False, hill_ok=False)    # (the Hill laws are known findings, keyed by family)
     return out
 
@@ -165,7 +166,7 @@ def run(ctx):
                 'sequences (quick: length 0..2, thorough 0..4), 18 general rates covering each operator alone and nested) and rotations of a 13-reaction menu over 8 species (5..13 reactions per model) is written with '
                 'the real writer in deterministic and stochastic form; the file is read back with libsbml only: every identifier of every '
                 'kinetic law must be defined in the document, the law evaluated as plain SBML mathematics at 8 states (integers for the '
-                'stochastic export) must equal the model\'s own rate (stochastic form via hook H2) to 1e-10, and the stoichiometry attributes '
+                'stochastic export) must equal the model\'s own rate (stochastic form via hook H2) to 1e-10 (relative), and the stoichiometry attributes '
                 'must equal the multiplicities. states = exports; non-trivial = non-zero rate somewhere.')
     ctx.assumptions = ['libsbml\'s reader and vf/ref/sbml_eval.py as the meaning of plain SBML mathematics']
 
